@@ -12,8 +12,9 @@ import time
 import traceback
 
 VERIF = os.path.dirname(os.path.dirname(os.path.abspath(__file__)))
-REPLAYS = os.path.join(VERIF, "replays")
-EVIDENCE = os.path.join(VERIF, "evidence")
+_OUT = os.environ.get("VERIF_OUT", VERIF)          # scratch runs (seed evaluation) write elsewhere
+REPLAYS = os.path.join(_OUT, "replays")
+EVIDENCE = os.path.join(_OUT, "evidence")
 KNOWN = os.path.join(VERIF, "known_findings.json")
 
 TRUSTED_BASE = [
@@ -129,8 +130,9 @@ def _run_hw_task(mod, task, tier, prop):
     if "window" in modes:
         results += engine.run_windows(c, prefix, timeout_ms=tmo)
     if "bounded" in modes:
-        results += engine.run_bounded(c, prefix, task.get("depth", 20), clauses=task.get("bounded_clauses"),
-                                      timeout_ms=tmo, include_ensures=task.get("bounded_all", "inductive" not in modes))
+        bfn = engine.run_bounded_oneshot if task.get("oneshot") else engine.run_bounded
+        results += bfn(c, prefix, task.get("depth", 20), clauses=task.get("bounded_clauses"),
+                       timeout_ms=tmo, include_ensures=task.get("bounded_all", "inductive" not in modes))
     if "cover" in modes and c.covers:
         # existential: a native simulation run of the real module that reaches the cover is a witness; the solver is
         # only asked for the covers random simulation did not reach
